@@ -7,7 +7,6 @@ from jsonschema._utils import (
     extras_msg,
     find_additional_properties,
     types_msg,
-    unbool,
     uniq,
 )
 from jsonschema.exceptions import FormatError, ValidationError
@@ -256,11 +255,7 @@ def dependencies(validator, dependencies, instance, schema):
 
 
 def enum(validator, enums, instance, schema):
-    if instance == 0 or instance == 1:
-        unbooled = unbool(instance)
-        if all(unbooled != unbool(each) for each in enums):
-            yield ValidationError("%r is not one of %r" % (instance, enums))
-    elif instance not in enums:
+    if not any(equal(each, instance) for each in enums):
         yield ValidationError("%r is not one of %r" % (instance, enums))
 
 
